@@ -100,7 +100,8 @@ def run(ctx: Ctx, driver: Driver):
     fmt_of = {iid: f for f, iid in FORMATS.items()}
 
     def history(start, hist, with_key=True):
-        """hist: list of symbolic advertisements: ('G', g, inner, iid, value) | ('K', g, iid) wrong key | ('O', g, iid) other adv id | ('B', g, iid, bit) bitflip | ('S', n) short payload"""
+        """hist: list of symbolic advertisements: ('G', g, inner, iid, value) | ('K', g, iid) wrong key | ('O', g, iid) other adv id | ('B', g, iid, bit) bitflip | ('S', n) short payload |
+        ('T', g, iid, k) genuine with the tag cut to k bytes"""
         c, p, log = setup(start, with_key)
         toks, model_toks = [], []
         out = []
@@ -118,6 +119,10 @@ def run(ctx: Ctx, driver: Driver):
             elif h[0] == "O":
                 d, a = adv(seal(h[1], h[2], b"\x01", aid=OTHER), aid=OTHER)
                 model_toks.append(f"G:2:{h[1]}:{h[1]}:{h[2]}:{hx(b'\x01'.ljust(8, bytes(1)))}")
+            elif h[0] == "T":
+                # a genuine, fresh sealing whose authentication tag was cut short (h[3] of its 4 bytes kept): unauthenticated
+                d, a = adv(seal(h[1], h[2], b"\x07")[:12 + h[3]])
+                model_toks.append("F:1")
             elif h[0] == "B":
                 x = bytearray(seal(h[1], h[2], b"\x07"))
                 x[h[3] // 8 % len(x)] ^= 1 << (h[3] % 8)
@@ -140,6 +145,8 @@ def run(ctx: Ctx, driver: Driver):
                 ok = h[0] == "G" and before < h[1] < before + 100 and ((h[2] if h[2] is not None else h[1]) & 0xFFFF) == h[1] and key == (1, h[3]) and after == h[1]
                 if not ok:
                     ctx.violation("notify/accepted", f"start={start}: advertisement {h[:4]} was delivered (state {before}->{after}, key {key})", {"stream": "notify", "start": start, "hist": [list(map(str, x)) for x in hist]})
+                if h[0] != "G":
+                    continue
                 # value decoding: what listeners get is the value the accessory sealed, read with the characteristic's own width
                 fmt = fmt_of[h[3]]
                 want_v = reference_value(fmt, h[4])
@@ -224,6 +231,11 @@ def run(ctx: Ctx, driver: Driver):
         for old_g in (1, 2, 3, 50, 63, 64, 99, 100, 129):
             history(start, [("G", min(start + 1, 65535), None, iid0, b"\x01"), ("G", old_g, None, iid0, b"\x02"), ("G", old_g, None, iid0, b"\x02")])
             ctx.nontrivial.add((start, "ancient", old_g))
+    # a genuine fresh sealing whose tag was cut short authenticates nothing - then the complete one is accepted
+    for start in (10, 65400):
+        for keep in (0, 1, 2, 3):
+            history(start, [("T", start + 1, iid0, keep), ("G", start + 1, None, iid0, b"\x07"), ("T", start + 2, iid0, keep)])
+            ctx.nontrivial.add((start, "tag-cut", keep))
     # an authentic notification for an unknown instance id must still advance the state: an older genuine one is then stale
     for start in (10, 65400):
         for k in (2, 5, 50):
